@@ -24,7 +24,7 @@ def classify_compile_error(msgs):
 
 
 def run_corpus(out, progs, name, unimock_feature=False, tests=False, jobs=16, kani_extra=(),
-               compile_failure_is_violation=False, timeout=3000):
+               compile_failure_is_violation=False, timeout=3000, compile_only=False):
     """Runs all harnesses of `progs`. Fills `out` (violations / inconclusive) and returns stats dict."""
     stats = dict(programs=len(progs), harnesses=0, successful=0, failed=0, checks=0, solver_time_s=0.0,
                  compile_failed={}, kani_wall_s=0.0, build='unimock-feature' if unimock_feature else 'default-features',
@@ -53,7 +53,9 @@ def run_corpus(out, progs, name, unimock_feature=False, tests=False, jobs=16, ka
         return stats
     hs = [h for p in cur for h in p.harnesses]
     stats['harnesses'] = len(hs)
-    if not hs:
+    if not hs or compile_only:
+        stats['compile_only'] = compile_only
+        stats['programs_compiled'] = len(cur)
         return stats
     for _round in range(4):
         rc, log, dt = run.run_kani(crate, kani_target, tests=tests, jobs=jobs, extra=kani_extra, timeout=timeout)
